@@ -74,7 +74,10 @@ def run(tier, seed, replay=None):
         pairs += shorthand_pairs(rng, w)
     # the long forms are printed and read back as well (a printer may choose the shorthand)
     texts += [b for a, b in pairs] + ["(reval 'a 1)", '(reval ,e 1)', '(reval a@1 2)', "(slice 'a 1)", '(quote (reval a 1))',
-                                      '(reval (quote a) k)', '`(reval ,sig 1)', '(reval `a 2)']
+                                      '(reval (quote a) k)', '`(reval ,sig 1)', '(reval `a 2)',
+                                      # forms headed by array print as lists headed by the operator
+                                      '(array ("a" 1))', '(array)', '(seta (array) 1 2)', '(do (define m (array (1 2) ("k" x))) (geta m 1))',
+                                      "'(array x)", '(mapa (fn [k v] v) (array (1 2)))', '(list (array) (array (a b)))']
     texts = [t for t in texts if not any(x in t for x in ('~true', '#true', '~load', '#load', '~false', '#false'))]
     cases = []
     per = 40
